@@ -722,6 +722,8 @@ class Task:
                 raise RuntimeError("Parent must be from same WBS")
 
         if parent is not None:
+            if parent is self:
+                raise RuntimeError(f"Task {self.id} can't be a parent of itself")
             if parent in self.all_children:
                 raise RuntimeError(f"Task {parent.id} is a child of task {self.id}. Can't make child "
                                    f"a parent of its parent")
@@ -786,6 +788,8 @@ class Task:
                 raise RuntimeError(f"Id intersection detected")
 
         for ch in value:
+            if ch is self:
+                raise RuntimeError(f"Task {self.id} can't be a child of itself")
             if self in ch.all_children:
                 raise RuntimeError(f"Task {self.id} is a child of {ch.id}. Can't make child a parent of its parent")
 
